@@ -5,6 +5,7 @@ import Varint.Lemmas.Mono
 import Varint.Lemmas.External
 import Varint.Gen.Constants
 import Varint.Gen.Readme
+import Varint.Gen.Statics
 /-
   C04 — scalar wire formats are byte-exact, canonical and length-monotone.
   `Spec.*` are written from the documentation; `Gen.*` is regenerated from the headers and the
@@ -14,6 +15,10 @@ namespace Varint.Props.C04
 open Varint
 
 /-! ## byte-exactness: the encoder's bytes are the documented format's bytes -/
+
+/-- the models below are functions of the value alone; the code can only be such a function if no encoder keeps
+    scratch or state in static storage (regenerated from the objects built from /repo on every run) -/
+theorem bytes_depend_on_the_value_only : Gen.writableStatics = [] := by decide
 
 theorem tagged_spec_valid (v : Nat) (hv : v < 2 ^ 64) : Tagged.enc v = Spec.tagged v :=
   tagged_enc_eq_spec v hv
